@@ -41,10 +41,15 @@ func (o Op) String() string {
 	return fmt.Sprintf("%s(%d)", kindNames[o.Kind], o.K)
 }
 
-var selNames = []string{"0", "1", "avail-1", "avail", "avail+1", "size", "size+1", "2size+3"}
+var selNames = []string{"0", "1", "avail-1", "avail", "avail+1", "size", "size+1", "2size+3", "to125", "to126", "to127", "to253", "to65535", "to65536", "to65537", "to131066"}
 
-// NSel is the number of size selectors.
+// NSel is the number of size selectors used by the exhaustive alphabet.
 const NSel = 8
+
+// NSelAll also counts the threshold selectors ("toN": bring the number of
+// bytes buffered so far up to exactly N, the sizes at which the header
+// reservation of a growing buffer changes).
+const NSelAll = 16
 
 // Resolve turns a selector into a byte count for the writer's current state.
 func Resolve(w *wsutil.Writer, sel int) int {
@@ -67,6 +72,8 @@ func Resolve(w *wsutil.Writer, sel int) int {
 		k = s + 1
 	case 7:
 		k = 2*s + 3
+	case 8, 9, 10, 11, 12, 13, 14, 15:
+		k = []int{125, 126, 127, 253, 65535, 65536, 65537, 131066}[sel-8] - w.Buffered()
 	}
 	if k < 0 {
 		k = 0
